@@ -11,6 +11,8 @@ REQUIRED_BRANCHES = [
     "ld-encoding-gt4096",                      # intact files beyond one read buffer (CRC accumulated over several reads)
     "ld-noncanon-truncated-or-extended",       # CRC-consistent inputs with a field missing at the end / bytes behind the last segment
     "ld-noncanon-overlong-or-payload",         # CRC-consistent inputs that spell a state with over-long uvarints / unwritten payloads
+    "ldw-mm", "ldw-nm", "ldw-older-intact", "ldw-fallback-used", "ldw-newest-accepted",   # the writer's walk (OpenWriter/loadSnapshots)
+    "ldw-newest-err-crc", "ldw-newest-err-eof", "ldw-newest-err-length", "ldw-newest-err-version",
     "real:files",
 ]
 ASSUMPTIONS = [
@@ -43,6 +45,7 @@ _SIGS = [
     ("bad:roundtrip-typelen", "roundtrip-type-length-outside-3-5"),
     ("bad:accepted-truncated-or-extended-body", "accepted-truncated-or-extended-body"),
     ("bad:accepted-noncanonical-overlong-or-payload", "accepted-noncanonical-overlong-or-payload"),
+    ("bad:no-fallback-writer", "writer-does-not-fall-back-to-older-snapshot"),
 ]
 
 
